@@ -418,6 +418,20 @@ func (x *Exec) runBody(recv *ast.FieldList, ftype *ast.FuncType, body *ast.Block
 			x.oblOrder = append(x.oblOrder, name)
 		}
 	}
+	if c.Opts["apply-guard"] != "" {
+		// no function value is applied in the unit: the guard holds vacuously, and is recorded
+		name := x.unit + "/pre:apply-guard"
+		if x.caseName != "" {
+			name += "[" + x.caseName + "]"
+		}
+		if x.obls[name] == nil {
+			ob := &Obligation{Name: name, Prop: x.prop, Unit: x.unit, Kind: "pre", Src: c.Opts["apply-guard"] + "  (no function value is applied in the unit)", x: x, Case: x.caseName}
+			ob.disjuncts = []string{"false"}
+			ob.decls = len(x.decls)
+			x.obls[name] = ob
+			x.oblOrder = append(x.oblOrder, name)
+		}
+	}
 	// reachability (vacuity guard): some path must be feasible under requires + case
 	cov := &Obligation{Name: x.unit + "/cover:reachable", Prop: x.prop, Unit: x.unit, Kind: "cover", x: x, Cover: true, Case: x.caseName}
 	if x.caseName != "" {
